@@ -139,8 +139,6 @@ type held struct {
 
 // model-based check of one history
 func TestProp_History(t *testing.T) {
-	known := ev.KnownFindings("C13")
-	_, exclLexeme := known["K-C13-1"]
 	ev.Describe("history", "stateful (rapid t.Repeat): data from fragments (ASCII, multi-byte runes, NUL) x reader schedule (chunk sizes incl. 0-length reads and over-long, EOF with or after the last bytes, failure errBoom at any offset with or after data, reader with Bytes()) x initial size {0,1,2,3,7,8,64,4096} x actions Peek/PeekRune(valid UTF-8)/Move/Rewind/Lexeme/Skip/Shift/Pos/Err/ShiftLen/Free(n <= shifted-freed) and Move-beyond-peeked+Shift; oracle: flat cursor over the bytes the reader delivers, Err rules of the statement, held Shift/Lexeme slices unchanged while freed < their end, ShiftLen == shifted+skipped since last call; non-trivial = >= 1 refill while a token is held and >= 1 token straddling a chunk boundary")
 	ev.Check(t, 15000, func(t *rapid.T) {
 		data := genData(t, 14)
@@ -162,9 +160,8 @@ func TestProp_History(t *testing.T) {
 		start, pos, peeked, freed, shiftLenPrev := 0, 0, 0, 0, 0
 		var helds []held
 		var hist []string
-		lastCalls, startBefore := 0, 0 // startBefore: start before the current step (a refill inside Shift sees that one)
+		lastCalls := 0
 		refillWhileHeld, straddle := false, false
-		excluded := 0
 		readerErr := func() error {
 			if inMemory {
 				return io.EOF
@@ -339,11 +336,6 @@ func TestProp_History(t *testing.T) {
 						if h.end > freed {
 							refillWhileHeld = true
 						}
-						if h.lexeme && h.end > startBefore && exclLexeme {
-							// K-C13-1: a Lexeme slice whose tail is not yet shifted is not protected across a refill
-							excluded++
-							continue
-						}
 						kept = append(kept, h)
 					}
 					helds = kept
@@ -351,7 +343,6 @@ func TestProp_History(t *testing.T) {
 						straddle = true
 					}
 				}
-				startBefore = start
 				for _, h := range helds {
 					if h.end > freed && !bytes.Equal(h.b, h.cp) {
 						kind := "Shift"
@@ -371,9 +362,6 @@ func TestProp_History(t *testing.T) {
 		}
 		peek(0)
 		checkErr()
-		for i := 0; i < excluded; i++ {
-			ev.Excluded("history", "K-C13-1")
-		}
 		cls := "reader"
 		if inMemory {
 			cls = "in-memory"
